@@ -72,7 +72,12 @@ def generate(ctx):
         n = r.randrange(0, 10)
         ctx.add('parse_key_paths %s' % gen.hexarg(bytes(r.choice(alphabet) for _ in range(n))), kind='soup')
     # escapes inside plain and quoted names, every truncation (the scanners index ahead of the cursor)
-    for nm in common.escape_forms(ctx, ctx.scale(150, 4000)):
+    # surrogate pairs whose halves are spelled in the same or in different forms (4 digits / braced), alone and followed by one or
+    # more bytes; lone halves in both forms (a seeded decoder reused the spelling of the first half for the second)
+    hi, lo = ['\\uD83D', '\\u{D83D}', '\\ud83d', '\\u{d83D}'], ['\\uDE00', '\\u{DE00}', '\\ude00']
+    pairs = [h + l + tail for h in hi for l in lo for tail in ('', 'a', 'ab', '\\u0041', '\\u{41}')] + hi + lo + [l + h for h in hi[:2] for l in lo[:2]] + \
+            ['x' + h + l for h in hi[:2] for l in lo[:2]] + [h + 'x' + l for h in hi[:2] for l in lo[:2]] + [h + l + h + l for h in hi[:2] for l in lo[:2]]
+    for nm in pairs + common.escape_forms(ctx, ctx.scale(150, 4000)):
         for t in ('{' + nm + '}', '{"' + nm + '"}', '{a, ' + nm + ' , 1}', '{' + nm):
             t = t.encode()
             ctx.add('parse_key_paths %s' % gen.hexarg(t), kind='escape')
